@@ -9,7 +9,13 @@ Self-contained: plain strings (`List Char`) and lists of lines; styles do not ex
 change a character).  The Pygments lexer is a PARAMETER: the model receives the token texts and the
 theorems assume the contract `tokens.flatten = pygPre … (code handed to the lexer)`.
 
-Every definition mirrors the Python statement by statement; quirks are kept.  Two *variant flags* exist:
+Every definition mirrors the Python statement by statement; quirks are kept.  Three *variant flags* exist
+(`true` = rich as it was before the corresponding fix):
+  `rangePop`    true  = `lines = text.split("\n")` also when a range is given, and the indent-guide step
+                        `Text("\n").join(lines).with_indent_guides(..).split("\n")`: an EMPTY line that ends the
+                        selected range is lost (twice over with guides), an empty selection with guides shows one row;
+                false = repaired: `split("\n", allow_blank=bool(line_range))`, guides only for a non-empty
+                        selection, on `join(lines) + "\n"`, split with `allow_blank=True`;
   `stripnl`     true  = the `get_lexer_by_name(name)` of rich 9.10.0 as found (Pygments default `stripnl=True`),
                 false = repaired `get_lexer_by_name(name, stripnl=False)` (fix 92fb879, what /repo contains now);
   `skipRaises`  true  = the bare `next(tokens)` in `tokens_to_spans` of rich 9.10.0 as found (StopIteration inside a generator
@@ -164,6 +170,51 @@ def highlight (skipRaises found : Bool) (toks : List Line) (code : List Char) (r
       | .error e => .error e
       | .ok (y, ln, r) => .ok ((y ++ takeLoop le ln r).flatten)
 
+/-! ### `Syntax.highlight` with styles: which token style every character of the text carries
+
+Styles are opaque ids (the driver gets, for every token, the id of `theme.get_style_for_token(token_type)`).
+A character carries `some id` when a span with that style covers it, `none` when no token span does
+(the skipped lines of the ranged path, everything without a lexer). -/
+
+abbrev StyleId := Nat
+abbrev Styled := List (Char × Option StyleId)
+
+def styleWith (st : Option StyleId) (t : Line) : Styled := t.map (fun c => (c, st))
+
+/-- `line_tokenize` keeping the token type: every piece of a token has the token's style -/
+def lineTokenizeS (toks : List (Line × StyleId)) : List (Line × StyleId) :=
+  toks.flatMap (fun t => (pieces t.1).map (fun p => (p, t.2)))
+
+/-- the skip loop with styles: `yield (token, None)` -/
+def skipLoopS (skipRaises : Bool) (target : Nat) : Nat → List (Line × StyleId) → Except Err (Styled × Nat × List (Line × StyleId))
+  | ln, [] => if ln < target then (if skipRaises then .error .runtimeStopIteration else .ok ([], ln, [])) else .ok ([], ln, [])
+  | ln, p :: rest =>
+    if ln < target then
+      match skipLoopS skipRaises target (if endsNL p.1 then ln + 1 else ln) rest with
+      | .error e => .error e
+      | .ok (y, ln', r) => .ok (styleWith none p.1 ++ y, ln', r)
+    else .ok ([], ln, p :: rest)
+
+/-- the take loop with styles: `yield (token, _get_theme_style(token_type))` -/
+def takeLoopS (lineEnd : Int) : Nat → List (Line × StyleId) → Styled
+  | _, [] => []
+  | ln, p :: rest =>
+    if endsNL p.1 then
+      if ((ln + 1 : Nat) : Int) ≥ lineEnd then styleWith (some p.2) p.1
+      else styleWith (some p.2) p.1 ++ takeLoopS lineEnd (ln + 1) rest
+    else styleWith (some p.2) p.1 ++ takeLoopS lineEnd ln rest
+
+/-- `Syntax.highlight(code, line_range)` as a styled character stream. -/
+def highlightStyled (skipRaises found : Bool) (toks : List (Line × StyleId)) (code : List Char) (range : Option (Int × Int)) :
+    Except Err Styled :=
+  if !found then .ok (styleWith none (stripCtl code))
+  else match range with
+    | none => .ok (toks.flatMap (fun t => styleWith (some t.2) t.1))
+    | some (ls, le) =>
+      match skipLoopS skipRaises (ls - 1).toNat 0 (lineTokenizeS toks) with
+      | .error e => .error e
+      | .ok (y, ln, r) => .ok (y ++ takeLoopS le ln r)
+
 /-! ### `Text.with_indent_guides(indent_size)` on a list of lines -/
 
 def guideChar : Char := '│'
@@ -188,11 +239,21 @@ def guideLoop (ts : Nat) : Nat → List Line → Except Err (List Line)
       | .error e => .error e
       | .ok r => .ok (List.replicate blanks ni ++ (ni ++ l.drop ni.length) :: r)
 
-/-- `Text("\n").join(lines).with_indent_guides(tab_size).split("\n")` (syntax.py:512-517). -/
-def indentGuides (ts : Nat) (lines : List Line) : Except Err (List Line) :=
-  match guideLoop ts 0 (textSplit (joinNL lines) false) with
-  | .error e => .error e
-  | .ok ls => .ok (textSplit (joinNL ls) false)
+/-- The indent-guide step of `__rich_console__` (syntax.py:506-517).
+`rangePop = true`:  `Text("\n").join(lines).with_indent_guides(tab_size).split("\n")` whatever `lines` is;
+`rangePop = false`: skipped for an empty selection, else
+                    `(Text("\n").join(lines) + "\n").with_indent_guides(tab_size).split("\n", allow_blank=True)`
+(`with_indent_guides` itself splits its text without `allow_blank`, i.e. drops one trailing newline). -/
+def indentGuides (rangePop : Bool) (ts : Nat) (lines : List Line) : Except Err (List Line) :=
+  if rangePop then
+    match guideLoop ts 0 (textSplit (joinNL lines) false) with
+    | .error e => .error e
+    | .ok ls => .ok (textSplit (joinNL ls) false)
+  else if lines.isEmpty then .ok []
+  else
+    match guideLoop ts 0 (textSplit (joinNL lines ++ ['\n']) false) with
+    | .error e => .error e
+    | .ok ls => .ok (textSplit (joinNL ls) true)
 
 /-! ### fitting one line into the code column -/
 
@@ -225,7 +286,13 @@ structure Opts where
   legacyWindows : Bool    -- options.legacy_windows
   asciiOnly : Bool        -- options.ascii_only
   pad : Bool              -- not transparent_background
+  /-- `textwrap.dedent(self.code)` when `dedent` is on (a standard-library fact handed in like the tokens), else none -/
+  dedented : Option (List Char) := none
 deriving Repr
+
+/-- `code = textwrap.dedent(self.code) if self.dedent else self.code`: the text that is shown.
+(`_numbers_column_width` keeps counting the newlines of `self.code`.) -/
+def shownCode (o : Opts) (code : List Char) : List Char := o.dedented.getD code
 
 def countNL (s : List Char) : Nat := s.count '\n'
 
@@ -263,48 +330,61 @@ def numberRows (start : Nat) (hl : List Nat) : List Line → List Row
   | b :: bs => { num := start, marked := hl.contains start, body := b } :: numberRows (start + 1) hl bs
 
 /-- The logical lines that get a number (after range selection and indent guides), before fitting. -/
-def selectedLines (skipRaises : Bool) (o : Opts) (found : Bool) (lex : List Char → List Line) (code : List Char) :
+def selectedLines (skipRaises rangePop : Bool) (o : Opts) (found : Bool) (lex : List Char → List Line) (code : List Char) :
     Except Err (List Line) :=
-  let src := expandTabs o.tabSize code
+  let src := expandTabs o.tabSize (shownCode o code)
   match highlight skipRaises found (lex src) src o.lineRange with
   | .error e => .error e
   | .ok text =>
     let text := removeSuffixNL text
-    let lines := textSplit text false
+    -- `Text.split` builds every line with `Text(...)`, which strips BS/VT/FF/CR (nothing to strip without a lexer)
+    let lines := (textSplit text (!rangePop && o.lineRange.isSome)).map stripCtl
     let lines := match o.lineRange with
       | some (_, e) => pySlice lines (lineOffset o) e
       | none => lines
-    if o.indentGuides && !o.asciiOnly then indentGuides o.tabSize lines else .ok lines
+    if o.indentGuides && !o.asciiOnly then indentGuides rangePop o.tabSize lines else .ok lines
 
 /-- The numbered branch as structured rows. -/
-def numberedRows (cw : Char → Nat) (skipRaises : Bool) (o : Opts) (found : Bool) (lex : List Char → List Line)
+def numberedRows (cw : Char → Nat) (skipRaises rangePop : Bool) (o : Opts) (found : Bool) (lex : List Char → List Line)
     (code : List Char) : Except Err (List Row) :=
-  match selectedLines skipRaises o found lex code with
+  match selectedLines skipRaises rangePop o found lex code with
   | .error e => .error e
   | .ok lines =>
-    let w := (codeWidthInt o code).toNat
-    let noCrop := !o.wordWrap && o.optNoWrap
-    .ok (numberRows (o.startLine + lineOffset o) o.highlightLines (lines.map (fitLine cw w o.pad noCrop)))
+    -- `console.render_lines(line, width < 1)` yields no line at all: with word wrap and no room, no row is written
+    if o.wordWrap && decide (codeWidthInt o code < 1) then .ok []
+    else
+      let w := (codeWidthInt o code).toNat
+      let noCrop := !o.wordWrap && o.optNoWrap
+      .ok (numberRows (o.startLine + lineOffset o) o.highlightLines (lines.map (fitLine cw w o.pad noCrop)))
 
 /-- The un-numbered branch: `console.render(text, width=code_width)` with `no_wrap`: every line of the text
 (blank last line included), fitted. -/
 def plainRows (cw : Char → Nat) (skipRaises : Bool) (o : Opts) (found : Bool) (lex : List Char → List Line)
     (code : List Char) : Except Err (List Line) :=
-  let src := expandTabs o.tabSize code
+  let src := expandTabs o.tabSize (shownCode o code)
   match highlight skipRaises found (lex src) src o.lineRange with
   | .error e => .error e
   | .ok text =>
-    let w := (codeWidthInt o code).toNat
-    .ok ((textSplit (removeSuffixNL text) true).map (fitLine cw w o.pad false))
+    -- `Console.render` returns nothing when `max_width < 1`
+    if decide (codeWidthInt o code < 1) then .ok []
+    else
+      let w := (codeWidthInt o code).toNat
+      .ok (((textSplit (removeSuffixNL text) true).map stripCtl).map (fitLine cw w o.pad false))
 
 /-- Everything `console.render(Syntax(...), options)` writes, as a list of rows of characters. -/
-def render (cw : Char → Nat) (skipRaises : Bool) (o : Opts) (found : Bool) (lex : List Char → List Line)
+def render (cw : Char → Nat) (skipRaises rangePop : Bool) (o : Opts) (found : Bool) (lex : List Char → List Line)
     (code : List Char) : Except Err (List Line) :=
   if o.lineNumbers then
-    match numberedRows cw skipRaises o found lex code with
+    match numberedRows cw skipRaises rangePop o found lex code with
     | .error e => .error e
     | .ok rows => .ok (rows.map (Row.render (numbersColumnWidth o code) o.legacyWindows))
   else plainRows cw skipRaises o found lex code
+
+/-- `Syntax.__rich_measure__(console, max_width)`: (minimum, maximum). -/
+def measure (o : Opts) (code : List Char) (maxWidth : Nat) : Nat × Nat :=
+  match o.codeWidth with
+  | some w => (numbersColumnWidth o code, w + numbersColumnWidth o code)
+  | none => (numbersColumnWidth o code, maxWidth)
 
 /-! ### the domain in which `render` is claimed to equal the implementation -/
 
@@ -316,26 +396,21 @@ word wrapping is off. -/
 def lineInDomain (cw : Char → Nat) (w : Nat) (wordWrap : Bool) (l : Line) : Bool :=
   (cellLen cw l ≤ w && l.length ≤ w) || (!wordWrap && !hasZeroWidth cw l)
 
-/-- Outside this domain the driver answers `unmodelled`:
-* `code_width < 1` (Console.render yields nothing at all / negative lengths),
-* with a lexer, control characters 8, 11, 12 reach `Text` unstripped (the separately kept `_length` then
-  disagrees with the text; that is C05's subject),
-* a line that does not fit while word wrap is on (C02's subject) or that has to be cropped through a
-  zero-width character. -/
-def inDomain (cw : Char → Nat) (skipRaises : Bool) (o : Opts) (found : Bool) (lex : List Char → List Line)
+/-- Outside this domain the driver answers `unmodelled`: a line that does not fit while word wrap is on
+(folded rows are modelled in `Model/SyntaxWrap.lean`) or that has to be cropped through a zero-width character. -/
+def inDomain (cw : Char → Nat) (skipRaises rangePop : Bool) (o : Opts) (found : Bool) (lex : List Char → List Line)
     (code : List Char) : Bool :=
-  decide (codeWidthInt o code ≥ 1) &&
-  (!found || !(code.any (fun c => c.toNat == 8 || c.toNat == 11 || c.toNat == 12))) &&
-  (let w := (codeWidthInt o code).toNat
-   if o.lineNumbers then
-     match selectedLines skipRaises o found lex code with
-     | .error _ => true
-     | .ok ls => ls.all (lineInDomain cw w o.wordWrap)
-   else
-     let src := expandTabs o.tabSize code
-     match highlight skipRaises found (lex src) src o.lineRange with
-     | .error _ => true
-     | .ok text => (textSplit (removeSuffixNL text) true).all (lineInDomain cw w o.wordWrap))
+  let w := (codeWidthInt o code).toNat
+  if o.lineNumbers then
+    match selectedLines skipRaises rangePop o found lex code with
+    | .error _ => true
+    | .ok ls => (o.wordWrap && decide (codeWidthInt o code < 1)) || ls.all (lineInDomain cw w o.wordWrap)
+  else
+    let src := expandTabs o.tabSize (shownCode o code)
+    match highlight skipRaises found (lex src) src o.lineRange with
+    | .error _ => true
+    | .ok text => decide (codeWidthInt o code < 1) ||
+        ((textSplit (removeSuffixNL text) true).map stripCtl).all (lineInDomain cw w o.wordWrap)
 
 /-! ### `Traceback._render_stack` (traceback.py:483-500): the Syntax it builds for one frame -/
 
@@ -346,6 +421,15 @@ def tracebackOpts (lineno extra : Nat) (wordWrap indentGuides : Bool)
     highlightLines := [lineno], codeWidth := some 88, tabSize := 4,
     wordWrap := wordWrap, indentGuides := indentGuides,
     maxWidth := maxWidth, optNoWrap := optNoWrap, legacyWindows := legacyWindows, asciiOnly := asciiOnly, pad := pad }
+
+/-! ### `_render_syntax_error` (traceback.py:405-424): the offending line and the offset marker -/
+
+/-- `offset = min(syntax_error.offset - 1, len(text))`; the rows are the (right-stripped) line and
+`" " * offset + "▲"` (a negative count gives no spaces). -/
+def syntaxErrorRows (text : List Char) (offset : Int) : List Line :=
+  let off := min (offset - 1) (text.length : Int)
+  -- the console expands tabs (tab_size 8) when it wraps the text; the marker row was built from the raw offset
+  [expandTabs 8 text, List.replicate off.toNat ' ' ++ ['▲']]
 
 /-! ### `read_code` inside `_render_stack` (traceback.py:438-456): a cache that lives for ONE call -/
 
